@@ -228,8 +228,12 @@ def run_scenario(sc):
                 key = (b"k%d" % rid) if it.get("key", True) else None
                 hdrs = [("h", b"%d" % rid)] if it.get("hdr") else []
                 try:
-                    fut = await p.send("t", val, key=key, partition=it["p"], timestamp_ms=it.get("ts"),
-                                       headers=hdrs)
+                    coro = p.send("t", val, key=key, partition=it["p"], timestamp_ms=it.get("ts"), headers=hdrs)
+                    if sc.get("stop_after") is not None:
+                        # a send() caught by a concurrent stop() while it waits for metadata never returns
+                        # (nothing accepted: outside C02); do not let it hang the run
+                        coro = asyncio.wait_for(coro, timeout=600.0)
+                    fut = await coro
                     sends.append((rid, ti, it["p"], it.get("ts"), fut, key, val, hdrs))
                 except Exception as e:  # noqa: BLE001
                     sends.append((rid, ti, it["p"], it.get("ts"), "EXC:" + type(e).__name__, key, val, hdrs))
@@ -247,9 +251,29 @@ def run_scenario(sc):
             flushes.append({"at": delay, "t": loop.time() - t0, "pending_at_call": npend,
                             "unresolved_after": sum(1 for s in before if not s[4].done())})
 
+        early = {}
+
+        async def stopper(delay):
+            # stop() issued concurrently with the sending tasks (some of them parked on a full batch)
+            # the clock starts at the first accepted record: a send() still waiting for the topic's metadata when
+            # the client is closed never returns (no record accepted, no future: outside C02; DESIGN.md 9.7)
+            while not sends:
+                await asyncio.sleep(0.0005)
+            await asyncio.sleep(delay)
+            t0 = loop.time()
+            net.ev("stop_call_concurrent")
+            try:
+                await asyncio.wait_for(p.stop(), timeout=sc.get("stop_within", 300.0))
+                early["t"] = loop.time() - t0
+            except asyncio.TimeoutError:
+                early["timeout"] = True
+
         tasks = [asyncio.ensure_future(task(i, items)) for i, items in enumerate(sc["tasks"])]
         tasks += [asyncio.ensure_future(flusher(d)) for d in sc.get("flush_after") or []]
+        if sc.get("stop_after") is not None:
+            tasks.append(asyncio.ensure_future(stopper(sc["stop_after"])))
         await asyncio.gather(*tasks)
+        out["concurrent_stop"] = early or None
         out["flushes"] = flushes
         net.ev("quiet_begin")
         # quiet period: faults have ceased (plan exhausted); wait for resolution
